@@ -17,6 +17,7 @@ mod map;
 mod native;
 mod poseidon;
 mod pubin;
+mod sha256pad;
 mod vector;
 mod zkirfam;
 
@@ -207,6 +208,7 @@ fn main() {
         "map" => map::main_arm(spec, k, replay),
         "vector" => vector::main_arm(spec, k, replay),
         "pubin" => pubin::main_arm(spec, k, replay),
+        "sha256pad" => sha256pad::main_arm(spec, k, replay),
         _ => panic!("unknown family {family}"),
     }
 }
